@@ -49,7 +49,7 @@ ASSUMPTIONS = [
     "rounding an exact rational matrix to float64 moves every entry by at most 2^-53 relative, far below the margin 1e-3*(1+scale) and the library tolerances",
     "float64 arithmetic on the small (Gaussian) integer operands of the helper operations is exact (entries < 2^8, at most 3 factors, at most 36 terms)",
     "numpy.linalg.svd / eigh / cholesky / scipy null_space are accurate to 1e-8*scale on the well-conditioned small inputs generated",
-    "the elimination-based parts of the exact model that carry no certificate (spark, rank inside the UPB search, exact determinants of the minors of is_totally_positive, exact inverse of the signature) are executable Lean code without a correctness theorem; they are cross-validated by construction of the inputs and by agreement with toqito",
+    "the exact rank behind spark, is_linearly_independent, the UPB search and the commutant nullity is the shared Gaussian elimination of Toq/Core/Rank.lean, proved equal to Mathlib's Matrix.rank (C16.rank_correct, spark_spec, spark_subsets_complete, linIndepV_yes_iff, rank_lt_cols_iff_kernel, commutantDim_eq_nullity); the other elimination-based parts that carry no certificate (exact determinants of the minors of is_totally_positive, exact inverse of the signature) are executable Lean code without a correctness theorem; they are cross-validated by construction of the inputs and by agreement with toqito",
     "mutually unbiased bases are generated exactly only in dimensions 2, 4, 6 (entries in Q[i] up to a square-root normalisation); other dimensions only get violating inputs",
 ]
 
